@@ -142,7 +142,7 @@ Definition undefined_property (s : store) (m : name) : nres :=
 Definition bind_method (s : store) (cls : addr) (m : name) (recv : value) : nres :=
   match alist_find m (class_methods s cls) with
   | Some (VClosure c) => let '(s1, a) := alloc s (OBound recv c) in NVal s1 (VBound a)
-  | Some (VNative n) => let '(s1, a) := alloc s (OBoundNat recv n) in NVal s1 (VBoundNat a)
+  | Some (VNative n _) => let '(s1, a) := alloc s (OBoundNat recv n) in NVal s1 (VBoundNat a)
   | _ => undefined_property s m
   end.
 
